@@ -530,6 +530,47 @@ fn fixed_hash<T: std::hash::Hash + ?Sized>(t: &T) -> u64 {
     h.finish()
 }
 
+/// A hasher that is sensitive to the boundaries of the calls it receives (like FxHash or aHash,
+/// unlike SipHash): equal transcripts of Hasher calls are what "hashes like the str" means for
+/// every possible hasher.
+#[derive(Default)]
+struct CallHasher(u64);
+impl CallHasher {
+    fn mix(&mut self, tag: u8, bytes: &[u8]) {
+        self.0 = (self.0 ^ tag as u64).wrapping_mul(0x100000001b3);
+        for &b in bytes {
+            self.0 = (self.0 ^ b as u64).wrapping_mul(0x100000001b3);
+        }
+        self.0 = (self.0 ^ (bytes.len() as u64) << 8).wrapping_mul(0x9e3779b97f4a7c15);
+    }
+}
+impl std::hash::Hasher for CallHasher {
+    fn finish(&self) -> u64 {
+        self.0
+    }
+    fn write(&mut self, bytes: &[u8]) {
+        self.mix(1, bytes)
+    }
+    fn write_u8(&mut self, i: u8) {
+        self.mix(2, &[i])
+    }
+    fn write_usize(&mut self, i: usize) {
+        self.mix(3, &i.to_le_bytes())
+    }
+    fn write_u32(&mut self, i: u32) {
+        self.mix(4, &i.to_le_bytes())
+    }
+    fn write_u64(&mut self, i: u64) {
+        self.mix(5, &i.to_le_bytes())
+    }
+}
+fn call_hash<T: std::hash::Hash + ?Sized>(t: &T) -> u64 {
+    use std::hash::Hasher;
+    let mut h = CallHasher::default();
+    t.hash(&mut h);
+    h.finish()
+}
+
 pub fn c17_pair(a: &LeanString, sa: &str, b: &LeanString, sb: &str, what: &str, out: &mut Vec<Viol>) {
     let mut v = |oracle: &'static str, detail: String| out.push(Viol { prop: "C17", oracle, detail });
     if (a == b) != (sa == sb) || (a != b) != (sa != sb) {
@@ -550,6 +591,9 @@ pub fn c17_single(a: &LeanString, sa: &str, what: &str, out: &mut Vec<Viol>) {
     let mut v = |oracle: &'static str, detail: String| out.push(Viol { prop: "C17", oracle, detail });
     if fixed_hash(a) != fixed_hash(sa) {
         v("hash-str", format!("{what}: Hash of LeanString {sa:?} differs from Hash of the str"));
+    }
+    if call_hash(a) != call_hash(sa) {
+        v("hash-calls", format!("{what}: LeanString {sa:?} feeds the Hasher a different sequence of calls than the str does (a hasher that mixes per call, e.g. FxHash, then hashes them differently)"));
     }
     let owned = sa.to_string();
     let cow: Cow<str> = Cow::Borrowed(sa);
